@@ -203,3 +203,23 @@ def apalache_inductive(module, tag):
     shutil.rmtree(outdir, ignore_errors=True)
     return dict(name=module, obligations=len(steps), discharged=len(steps), wall=round(time.time() - t0, 1),
                 what="inductive invariant, unbounded in N and Wd")
+
+
+def tlaps_proof(module, tag):
+    """unbounded proof with the TLA+ proof system: every obligation of spec/tlaps/<module>.tla must be discharged
+    (fingerprints are not trusted: the cache directory is private to the run and removed afterwards)"""
+    d = os.path.join(SPEC, "tlaps")
+    cache = os.path.join(OUT, "tlaps", tag)
+    shutil.rmtree(cache, ignore_errors=True)
+    os.makedirs(cache, exist_ok=True)
+    t0 = time.time()
+    try:
+        rc, out = run(["tlapm", "--threads", "6", "--cleanfp", "--cache-dir", cache, module + ".tla"], cwd=d, timeout=1500)
+    except subprocess.TimeoutExpired:
+        raise ToolError("tlapm timed out on %s" % module)
+    m = re.search(r"All (\d+) obligations? proved", out)
+    shutil.rmtree(cache, ignore_errors=True)
+    if rc != 0 or not m:
+        raise ToolError("tlapm does not prove %s:\n%s" % (module, out[-2000:]))
+    return dict(name=module, obligations=int(m.group(1)), discharged=int(m.group(1)), wall=round(time.time() - t0, 1),
+                what="TLAPS proof, unbounded")
